@@ -6,6 +6,7 @@ Op(op, g, m, r) == [op |-> op, g |-> g, m |-> m, r |-> r]
 OpSet ==
   {Op("Retry", "Retry", 0, FALSE)}
   \cup {Op("Retry", "RetryWithConfig", m, r) : m \in 0..2, r \in BOOLEAN}
+  \cup {Op("Retry", "RetryWithConfigDelay", m, r) : m \in 1..2, r \in BOOLEAN}      \* RetryConfig.Delay = 3 ms: same outcome, each retry no sooner than the delay after the failure
   \cup {Op("RepeatWith", "RepeatWith", m, FALSE) : m \in 0..3}
   \cup {Op("DoWhile", g, 0, FALSE) : g \in {"DoWhile", "DoWhileI", "DoWhileWithContext", "DoWhileIWithContext"}}
   \cup {Op("While", g, 0, FALSE) : g \in {"While", "WhileI", "WhileWithContext", "WhileIWithContext"}}
